@@ -223,3 +223,93 @@ package file
 //@   callpre bufio.Writer).Flush: $AllWritten
 //@   havoc $AllWritten $HdrWritten $RootsWritten $Flushed
 //@   ensures err == nil ==> $Flushed
+
+// ---------------------------------------------------------------------------------------------
+// C05: dispatch of axis reads. cellOf(r, off, n, row, col): the share at cell (row, col) of an n-wide
+// row-major region of reader r starting at byte off, or tail padding past the end of the file.
+//@ pure func cellOf(r io.ReaderAt, off int, n int, row int, col int) libshare.Share = ((off + (row * n + col + 1) * 512 <= fsize(r)) ? shareAt(r, off + (row * n + col) * 512) : tailPad())
+
+// The parity-quadrant file holds Q4 only: axis idx of the square is axis idx - n of the file, the half
+// is marked parity, and an index in the upper/left half is refused.
+//@ func (*q4).axisHalf
+//@   property C05
+//@   requires q4 != nil && q4.hdr != nil && q4.hdr.shareSize == 512 && q4.hdr.squareSize >= 2 && axisIdx < q4.hdr.squareSize
+//@   requires mod(q4.hdr.squareSize, 2) == 0 && fsize(iface(q4.file)) >= 0 && mod(fsize(iface(q4.file)), 512) == 0
+//@   ensures err == nil ==> axisIdx >= q4.hdr.squareSize / 2 && result0.IsParity && len(result0.Shares) == q4.hdr.squareSize / 2 && (axisType == 0 || axisType == 1)
+//@   ensures err == nil && axisType == 0 ==> forall i int :: 0 <= i && i < q4.hdr.squareSize / 2 ==> result0.Shares[i] == cellOf(iface(q4.file), 0, q4.hdr.squareSize / 2, axisIdx - q4.hdr.squareSize / 2, i)
+//@   ensures err == nil && axisType == 1 ==> forall i int :: 0 <= i && i < q4.hdr.squareSize / 2 ==> result0.Shares[i] == cellOf(iface(q4.file), 0, q4.hdr.squareSize / 2, i, axisIdx - q4.hdr.squareSize / 2)
+
+// The ODS accessor serves an axis half of the original square either from its in-memory copy or from
+// the file. odsCacheOK: the in-memory copy, when present, is the square the file holds (established by
+// readODS, preserved by every method). Either way the half is cell-exact.
+//@ pure func odsCacheOK(o *ODS) bool = o.ods == nil || (squareOK(o.ods) && len(o.ods) == o.hdr.squareSize / 2 && (forall r int, c int :: 0 <= r && r < o.hdr.squareSize / 2 && 0 <= c && c < o.hdr.squareSize / 2 ==> o.ods[r][c] == cellOf(iface(o.fl), o.hdr.OffsetWithRoots(), o.hdr.squareSize / 2, r, c)))
+
+//@ func (*ODS).readAxisHalf
+//@   property C05
+//@   requires o != nil && o.hdr != nil && o.hdr.shareSize == 512 && o.hdr.squareSize >= 2 && 0 <= axisIdx && axisIdx < o.hdr.squareSize / 2 && odsCacheOK(o)
+//@   requires o.hdr.OffsetWithRoots() >= 0 && fsize(iface(o.fl)) >= o.hdr.OffsetWithRoots() && mod(fsize(iface(o.fl)) - o.hdr.OffsetWithRoots(), 512) == 0
+//@   ensures err == nil ==> !result0.IsParity && len(result0.Shares) == o.hdr.squareSize / 2
+//@   ensures err == nil && axisType == 0 ==> forall i int :: 0 <= i && i < o.hdr.squareSize / 2 ==> result0.Shares[i] == cellOf(iface(o.fl), o.hdr.OffsetWithRoots(), o.hdr.squareSize / 2, axisIdx, i)
+//@   ensures err == nil && axisType != 0 ==> forall i int :: 0 <= i && i < o.hdr.squareSize / 2 ==> result0.Shares[i] == cellOf(iface(o.fl), o.hdr.OffsetWithRoots(), o.hdr.squareSize / 2, i, axisIdx)
+
+//@ func (*ODS).size
+//@   property C05
+//@   pure
+//@   ensures result == int(o.hdr.squareSize)
+
+// (reads the whole original square through a stream and keeps it: assumed to establish odsCacheOK -
+// the stream position is not expressible in the contract language)
+//@ func (*ODS).readODS
+//@   property C05
+//@   trusted
+//@   modifies o
+//@   ensures o.hdr == old(o.hdr) && o.fl == old(o.fl) && (old(odsCacheOK(o)) ==> odsCacheOK(o))
+
+// (erasure-codes the opposite axes in goroutines; the half it returns is never marked parity)
+//@ func (square).computeAxisHalf
+//@   property C05
+//@   trusted
+//@   ensures !result0.IsParity && len(result0.Shares) == len(s)
+
+// An axis of the upper/left half comes from the stored bytes, cell-exact; an axis of the lower/right half
+// is computed from the original square (erasure coding, outside the contracts).
+//@ func (*ODS).AxisHalf
+//@   property C05
+//@   requires o != nil && o.hdr != nil && o.hdr.shareSize == 512 && o.hdr.squareSize >= 2 && 0 <= axisIdx && odsCacheOK(o)
+//@   requires o.hdr.OffsetWithRoots() >= 0 && fsize(iface(o.fl)) >= o.hdr.OffsetWithRoots() && mod(fsize(iface(o.fl)) - o.hdr.OffsetWithRoots(), 512) == 0
+//@   modifies o
+//@   ensures o.hdr == old(o.hdr) && o.fl == old(o.fl) && odsCacheOK(o)
+//@   ensures err == nil ==> !result0.IsParity
+//@   ensures err == nil && axisIdx < o.hdr.squareSize / 2 ==> len(result0.Shares) == o.hdr.squareSize / 2
+//@   ensures err == nil && axisIdx < o.hdr.squareSize / 2 && axisType == 0 ==> forall i int :: 0 <= i && i < o.hdr.squareSize / 2 ==> result0.Shares[i] == cellOf(iface(o.fl), o.hdr.OffsetWithRoots(), o.hdr.squareSize / 2, axisIdx, i)
+//@   ensures err == nil && axisIdx < o.hdr.squareSize / 2 && axisType != 0 ==> forall i int :: 0 <= i && i < o.hdr.squareSize / 2 ==> result0.Shares[i] == cellOf(iface(o.fl), o.hdr.OffsetWithRoots(), o.hdr.squareSize / 2, i, axisIdx)
+
+// (opens the parity file lazily, once; nil when it is absent)
+//@ func (*ODSQ4).tryLoadQ4
+//@   property C05
+//@   trusted
+//@   ensures result != nil ==> result.hdr == odsq4.ods.hdr && fsize(iface(result.file)) >= 0 && mod(fsize(iface(result.file)), 512) == 0
+
+//@ func (*ODS).Size
+//@   property C05
+//@   requires o != nil && o.hdr != nil
+//@   ensures err == nil && result0 == int(o.hdr.squareSize)
+
+//@ func (*ODSQ4).Size
+//@   property C05
+//@   requires odsq4 != nil && odsq4.ods != nil && odsq4.ods.hdr != nil
+//@   ensures err == nil && result0 == int(odsq4.ods.hdr.squareSize)
+
+// With the parity file: an axis of the lower/right half is read from it (marked parity, cell-exact in
+// that file); everything else - and everything once the parity file is gone - goes to the ODS file.
+//@ func (*ODSQ4).AxisHalf
+//@   property C05
+//@   requires odsq4 != nil && odsq4.ods != nil && odsq4.ods.hdr != nil && odsq4.ods.hdr.shareSize == 512 && odsq4.ods.hdr.squareSize >= 2 && mod(odsq4.ods.hdr.squareSize, 2) == 0
+//@   requires 0 <= axisIdx && axisIdx < odsq4.ods.hdr.squareSize && odsCacheOK(odsq4.ods)
+//@   requires odsq4.ods.hdr.OffsetWithRoots() >= 0 && fsize(iface(odsq4.ods.fl)) >= odsq4.ods.hdr.OffsetWithRoots() && mod(fsize(iface(odsq4.ods.fl)) - odsq4.ods.hdr.OffsetWithRoots(), 512) == 0
+//@   modifies odsq4.ods
+//@   ensures odsq4.ods == old(odsq4.ods) && odsq4.ods.hdr == old(odsq4.ods.hdr) && odsq4.ods.fl == old(odsq4.ods.fl) && odsCacheOK(odsq4.ods)
+//@   ensures err == nil && result0.IsParity ==> axisIdx >= odsq4.ods.hdr.squareSize / 2 && len(result0.Shares) == odsq4.ods.hdr.squareSize / 2
+//@   ensures err == nil && axisIdx < odsq4.ods.hdr.squareSize / 2 ==> !result0.IsParity && len(result0.Shares) == odsq4.ods.hdr.squareSize / 2
+//@   ensures err == nil && axisIdx < odsq4.ods.hdr.squareSize / 2 && axisType == 0 ==> forall i int :: 0 <= i && i < odsq4.ods.hdr.squareSize / 2 ==> result0.Shares[i] == cellOf(iface(odsq4.ods.fl), odsq4.ods.hdr.OffsetWithRoots(), odsq4.ods.hdr.squareSize / 2, axisIdx, i)
+//@   ensures err == nil && axisIdx < odsq4.ods.hdr.squareSize / 2 && axisType != 0 ==> forall i int :: 0 <= i && i < odsq4.ods.hdr.squareSize / 2 ==> result0.Shares[i] == cellOf(iface(odsq4.ods.fl), odsq4.ods.hdr.OffsetWithRoots(), odsq4.ods.hdr.squareSize / 2, i, axisIdx)
